@@ -123,6 +123,8 @@ def integer_conversions(term):
         out.append((f'astype({fam})', f.a[0], t))
     elif f == Term('ext', 'numpy.timedelta64') and len(t.a[1]) == 2 and t.a[1][0].k != 'const':
       out.append(('np.timedelta64(x, unit)', t.a[1][0], t))
+    elif f == Term('ext', 'numpy.datetime64') and len(t.a[1]) == 2 and t.a[1][0].k != 'const':
+      out.append(('np.datetime64(x, unit)', t.a[1][0], t))
     elif alg.ext_short(f) in ('array', 'asarray') and len(t.a[1]) == 2 and ('timedelta64' in sym.show(t.a[1][1]) or 'datetime64' in sym.show(t.a[1][1])):
       out.append(('np.array(x, time dtype)', t.a[1][0], t))
   return out
@@ -144,6 +146,13 @@ def rule_rounding(chk, prog):
         if t in seen:
           continue
         seen.add(t)
+        if kind == 'np.datetime64(x, unit)':
+          # re-expressing a calendar time in a (possibly coarser) unit drops everything below that unit: minute resolution is lost
+          chk.violation(rule, f'{q}: {kind} of {sym.show(operand, maxdepth=3)[:60]}', 'a calendar time is re-expressed in a fixed unit: numpy truncates anything finer (a reference '
+                        'at 00:30 becomes 00:00), so the two directions of the time map no longer agree at minute resolution', t.loc or (f.file, f.lineno),
+                        'use the datetime64 value as given', sym.show(t, maxdepth=3)[:120])
+          n += 1
+          continue
         if not float_time_source(operand):
           chk.ok(rule, f'{q}: {kind} of {sym.show(operand, maxdepth=3)[:60]}', 'operand is not a re-dimensionalised floating value (integer / calendar source)', t.loc or (f.file, f.lineno))
           n += 1
